@@ -9,7 +9,7 @@ use crate::refm::resolver::*;
 use scpi::Context;
 
 pub fn run(cfg: &Cfg, rep: &mut Report) {
-    let ntrees = cfg.n(6, 3_000, 80_000);
+    let ntrees = cfg.n(6, 24_000, 480_000);
     let nhist = cfg.n(10, 150, 400) as usize;
     run_cases(cfg, "trees", ntrees, rep, |rng, ctx| {
         let (specs, nh) = TreeGen::generate(rng, true);
